@@ -8,11 +8,14 @@ from hyp import Violation
 PID = "C14"
 RULE = ("histories (<=30 steps) over 4 engine slots (two static buffers used with placement new, so that a new engine reuses the address of a destroyed "
         "one, and two heap slots) and 4 threads (main + 3 workers that outlive every engine): create / destroy / eval of scripts declaring locals, "
-        "globals and functions with deliberately colliding names / probes of names. Oracle: a dictionary model per engine *instance* (locals per "
-        "thread, globals and functions per instance); every probe and get_locals() must equal the model. non-trivial = a create on a previously "
-        "used slot followed by a probe from a thread that used the earlier instance, or two live engines with a colliding name; distinct = distinct histories")
+        "globals, functions and classes with deliberately colliding names / user conversions between three C++ types registered per instance / use() of two "
+        "files / probes of names, constructors, conversions. Oracle: a dictionary model per engine *instance* (locals per "
+        "thread; globals, functions, classes, conversions and used files per instance); every probe and get_locals() must equal the model. non-trivial = a create on a previously "
+        "used slot followed by a probe from a thread that used the earlier instance, or two live engines with a colliding name / both with conversions / both having used the same file; distinct = distinct histories")
 
 NAMES = ["alpha", "beta", "gamma"]
+CONVS = ["a2b", "a2c", "b2c"]
+CONV_PROBE = {"a2b": "take_cb(make_ca(5))", "a2c": "take_cc(make_ca(5))", "b2c": "take_cc(make_cb(5))"}
 
 step = st.one_of(
     st.fixed_dictionaries({"op": st.just("create"), "slot": st.integers(0, 3), "thread": st.integers(0, 3)}),
@@ -26,6 +29,14 @@ step = st.one_of(
     st.fixed_dictionaries({"op": st.just("probe"), "slot": st.integers(0, 3), "thread": st.integers(0, 3), "name": st.sampled_from(NAMES)}),
     st.fixed_dictionaries({"op": st.just("probe"), "slot": st.integers(0, 3), "thread": st.integers(0, 3), "name": st.sampled_from(NAMES)}),
     st.fixed_dictionaries({"op": st.just("call"), "slot": st.integers(0, 3), "thread": st.integers(0, 3), "name": st.sampled_from(NAMES)}),
+    st.fixed_dictionaries({"op": st.just("class"), "slot": st.integers(0, 3), "thread": st.integers(0, 3), "name": st.sampled_from(["Ka", "Kb"]), "v": st.integers(1, 99)}),
+    st.fixed_dictionaries({"op": st.just("newobj"), "slot": st.integers(0, 3), "thread": st.integers(0, 3), "name": st.sampled_from(["Ka", "Kb"])}),
+    st.fixed_dictionaries({"op": st.just("conv"), "slot": st.integers(0, 3), "thread": st.integers(0, 3), "kind": st.sampled_from(CONVS), "v": st.integers(1, 99)}),
+    st.fixed_dictionaries({"op": st.just("conv"), "slot": st.integers(0, 3), "thread": st.integers(0, 3), "kind": st.sampled_from(CONVS), "v": st.integers(1, 99)}),
+    st.fixed_dictionaries({"op": st.just("convprobe"), "slot": st.integers(0, 3), "thread": st.integers(0, 3), "kind": st.sampled_from(CONVS)}),
+    st.fixed_dictionaries({"op": st.just("convprobe"), "slot": st.integers(0, 3), "thread": st.integers(0, 3), "kind": st.sampled_from(CONVS)}),
+    st.fixed_dictionaries({"op": st.just("use"), "slot": st.integers(0, 3), "thread": st.integers(0, 3), "file": st.sampled_from(["u1", "u2"])}),
+    st.fixed_dictionaries({"op": st.just("use"), "slot": st.integers(0, 3), "thread": st.integers(0, 3), "file": st.sampled_from(["u1", "u2"])}),
 )
 
 
@@ -39,9 +50,17 @@ class Inst:
         self.locals = {}     # thread -> {name: v}
         self.globals = {}
         self.funcs = {}
+        self.classes = {}
+        self.convs = {}
+        self.used = set()
 
 
 def check(c, ctx):
+    import os
+    root = vlib.workdir("c14_%d_%d" % (os.getpid(), ctx.idx)) + "/"
+    for f in ("u1", "u2"):
+        with open(root + f + ".chai", "w") as fh:
+            fh.write("print(\"file-%s\")\n" % f)
     ctx.request({"cmd": "c14", "op": "reset", "slot": 0, "thread": 0})
     live = {}
     used_slot_threads = {}     # slot -> set of threads that evaluated on any earlier instance in this slot
@@ -80,9 +99,42 @@ def check(c, ctx):
             if slot not in live:
                 continue
             inst = live[slot]
-            name = s_["name"]
+            name = s_.get("name")
             loc = inst.locals.setdefault(th, {})
-            if op == "var":
+            want_out = ""
+            if op == "conv":
+                # a user conversion registered in this instance only
+                trace.append("slot %d T%d: add(type_conversion %s, +%d)" % (slot, th, s_["kind"], s_["v"]))
+                r = ctx.request({"cmd": "c14", "op": "conv", "slot": slot, "thread": th, "kind": s_["kind"], "k": s_["v"]})
+                if ("exc" in r) != (s_["kind"] in inst.convs):
+                    raise Violation("step %d (%s): %s, the model of this engine instance says the conversion %s" % (
+                        k, trace[-1], "raised %s" % r["exc"].get("kind") if "exc" in r else "succeeded", "already exists" if s_["kind"] in inst.convs else "is new here"), {"trace": trace})
+                inst.convs.setdefault(s_["kind"], s_["v"])
+                if sum(1 for o in live.values() if o.convs) >= 2:
+                    nontrivial = True
+                continue
+            if op == "convprobe":
+                script = CONV_PROBE[s_["kind"]]
+                want = ("i32:%d" % (5 + inst.convs[s_["kind"]])) if s_["kind"] in inst.convs else "ERR"
+            elif op == "class":
+                script = "class %s { def %s() { } def val() { %d } }; 0" % (name, name, s_["v"] + 2000)
+                if name in inst.classes:
+                    want = "ERR"
+                else:
+                    inst.classes[name] = s_["v"] + 2000
+                    want = "i32:0"
+            elif op == "newobj":
+                script = "%s().val()" % name
+                want = ("i32:%d" % inst.classes[name]) if name in inst.classes else "ERR"
+            elif op == "use":
+                script = "use(\"%s%s.chai\"); 0" % (root, s_["file"])
+                want = "i32:0"
+                if s_["file"] not in inst.used:
+                    inst.used.add(s_["file"])
+                    want_out = "file-%s\n" % s_["file"]
+                if sum(1 for o in live.values() if s_["file"] in o.used) >= 2:
+                    nontrivial = True
+            elif op == "var":
                 script = "var %s = %d; %s" % (name, s_["v"], name)
                 if name in loc:
                     want = "ERR"
@@ -109,7 +161,7 @@ def check(c, ctx):
                 want = "ERR" if (name in loc or name in inst.globals) else ("i32:%d" % inst.funcs[name]) if name in inst.funcs else "ERR"
             if th in used_slot_threads.get(slot, {}).get("earlier", set()):
                 nontrivial = True
-            if sum(1 for o in live.values() if name in o.globals or name in o.funcs or any(name in l for l in o.locals.values())) >= 2:
+            if name is not None and sum(1 for o in live.values() if name in o.globals or name in o.funcs or any(name in l for l in o.locals.values())) >= 2:
                 nontrivial = True
             used_slot_threads.setdefault(slot, {"earlier": set(), "current": set()})["current"].add(th)
             trace.append("slot %d T%d: %s" % (slot, th, script))
@@ -118,6 +170,9 @@ def check(c, ctx):
             if got != want:
                 raise Violation("step %d (%s): engine answers %s, the model of this engine instance says %s" % (k, trace[-1], got if got != "ERR" else "error: %s" % (r["exc"].get("reason") or r["exc"].get("kind")), want),
                                 {"trace": trace})
+            if op == "use" and r.get("out", "") != want_out:
+                raise Violation("step %d (%s): the file printed %r, the model of this engine instance says %r (a file is evaluated by the first use() in each engine)" % (
+                    k, trace[-1], r.get("out", ""), want_out), {"trace": trace})
             got_locals = sorted(n for n in r["locals"] if n in NAMES)
             if got_locals != sorted(loc):
                 raise Violation("step %d (%s): get_locals() on this thread shows %s, the model says %s" % (k, trace[-1], got_locals, sorted(loc)), {"trace": trace})
